@@ -36,7 +36,7 @@ func (c cell) String() string {
 func (c cell) key() string { return fmt.Sprintf("%s/%s/%s", c.role, c.cause, c.phase) }
 
 var causes = []string{"peer-eof", "read-error", "write-error", "peer-stops-reading", "client-close", "acceptor-close", "handler-stop", "unroutable-inbound-frame"}
-var phases = []string{"before-logon", "mid-handshake", "established-idle", "inbound-burst", "inbound-stream", "inbound-requests", "outbound-burst", "during-logout"}
+var phases = []string{"before-logon", "mid-handshake", "established-idle", "inbound-burst", "inbound-stream", "inbound-requests", "resend-batch-in-flight", "outbound-burst", "during-logout"}
 
 func peerCaused(cause string) bool {
 	return cause == "peer-eof" || cause == "read-error" || cause == "write-error" || cause == "peer-stops-reading"
@@ -156,6 +156,18 @@ func runCell(c *vk.Ctx, ce cell, idx int) *outcome {
 			burst = append(burst, l.Peer.TestRequest(fmt.Sprintf("r%d", k))...)
 		}
 		l.Conn.Feed(burst)
+	case "resend-batch-in-flight":
+		// the session is replaying stored messages as one batch (answer to a ResendRequest) to a slowly reading peer
+		// when the connection ends
+		if !logon() {
+			return o
+		}
+		for k := 0; k < 40; k++ {
+			_ = l.S.Send(fixgen.CreateMarketDataRequestReject(fmt.Sprintf("stored-%d", k)))
+		}
+		l.WaitFrames(3*time.Second, func(fr []rig.Frame) bool { return len(fr) >= 40 })
+		l.Conn.SetWriteDelay(time.Millisecond)
+		l.Conn.Feed(l.Peer.Resend(1, 0))
 	case "inbound-stream":
 		// a steady stream at a moderate rate: the handler keeps up, so when its loop ends
 		// the next message is still on its way through the hand-offs
@@ -297,7 +309,7 @@ func judge(c *vk.Ctx, o *outcome, p1, p2 []rig.GStack) {
 	if (ce.cause == "write-error" || ce.cause == "peer-stops-reading") && len(l.Conn.Writes()) == 0 && ce.role == rig.Acceptor && (ce.phase == "before-logon" || ce.phase == "mid-handshake") {
 		applicable = false
 	}
-	nontrivial := ce.phase == "inbound-stream" || ce.phase == "inbound-requests" || ce.phase == "established-idle" || ce.phase == "during-logout" || ce.phase == "before-logon" || ce.phase == "mid-handshake" || o.pendingAtFault > 0 || o.blockedSenders > 0
+	nontrivial := ce.phase == "inbound-stream" || ce.phase == "inbound-requests" || ce.phase == "resend-batch-in-flight" || ce.phase == "established-idle" || ce.phase == "during-logout" || ce.phase == "before-logon" || ce.phase == "mid-handshake" || o.pendingAtFault > 0 || o.blockedSenders > 0
 	c.Eval(vk.Hash64([]byte(desc)), nontrivial)
 	c.SetAdd("matrix_cells_reached", ce.key())
 	if o.pendingAtFault > 0 {
@@ -367,7 +379,7 @@ func judge(c *vk.Ctx, o *outcome, p1, p2 []rig.GStack) {
 
 func main() {
 	c := vk.Init("C13")
-	c.Rule("fault matrix: role {acceptor, initiator} x cause {peer EOF, read error, write error, peer stops reading (writes stall to the write deadline), Initiator.Close, Acceptor.Close, handler.Stop, a complete inbound frame without MsgType (the handler loop ends with an error), optionally followed by EOF} x phase {before logon, mid-handshake (cut inside the Logon bytes), established idle, inbound burst of 40 messages behind a slow application handler, steady inbound stream at a moderate rate, burst of 40 TestRequests (the handler loop itself is sending replies), outbound burst from 4 sender goroutines, during logout} x handler/conn buffer {0,1,10} x cut position {message boundary, mid-field, inside the CheckSum field} x 3 timing offsets; quick: every (role,cause,phase) once, thorough: the full matrix. Oracle after the settling bound 3 s + 1.1 (N+1) with N=1: net.Conn.Close called; Serve returned; OnDisconnect/OnStopped/EventDisconnect for peer-caused ends; a Session.Send issued 1 s after the end returns within 3 s; senders that were inside Send are released; goroutine profile (debug=1, pprof label per scenario) shows no library-started goroutine in two samples 1 s apart. distinct = matrix cell; non-trivial = hand-offs were pending / senders in flight at fault time (measured) or a non-traffic phase")
+	c.Rule("fault matrix: role {acceptor, initiator} x cause {peer EOF, read error, write error, peer stops reading (writes stall to the write deadline), Initiator.Close, Acceptor.Close, handler.Stop, a complete inbound frame without MsgType (the handler loop ends with an error), optionally followed by EOF} x phase {before logon, mid-handshake (cut inside the Logon bytes), established idle, inbound burst of 40 messages behind a slow application handler, steady inbound stream at a moderate rate, burst of 40 TestRequests (the handler loop itself is sending replies), a batch of 40 stored messages being retransmitted to a slowly reading peer, outbound burst from 4 sender goroutines, during logout} x handler/conn buffer {0,1,10} x cut position {message boundary, mid-field, inside the CheckSum field} x 3 timing offsets; quick: every (role,cause,phase) once, thorough: the full matrix. Oracle after the settling bound 3 s + 1.1 (N+1) with N=1: net.Conn.Close called; Serve returned; OnDisconnect/OnStopped/EventDisconnect for peer-caused ends; a Session.Send issued 1 s after the end returns within 3 s; senders that were inside Send are released; goroutine profile (debug=1, pprof label per scenario) shows no library-started goroutine in two samples 1 s apart. distinct = matrix cell; non-trivial = hand-offs were pending / senders in flight at fault time (measured) or a non-traffic phase")
 	c.Assume("settling bound 5.2 s with N=1: the library's timer goroutines notice cancellation only at their next expiry, which is bounded and therefore allowed; the listener's accept loop is exempt until Acceptor.Close")
 	var cells []cell
 	for _, role := range []rig.Role{rig.Acceptor, rig.Initiator} {
@@ -410,7 +422,7 @@ func main() {
 	}
 	can := rig.StartCanary()
 	defer can.Stop()
-	batch := 96
+	batch := 110
 	for start := 0; start < len(mine); start += batch {
 		end := start + batch
 		if end > len(mine) {
